@@ -75,6 +75,30 @@ func (r *Rcv) GenPtr(n int) (_ «Iter[int]») {
 	return
 }
 
+// declarations that share a NAME: a generator function and a plain forwarding method, a
+// generator method and a plain forwarding function, generator and plain methods of two types
+type Tree struct{ vals []int }
+
+func Walk(t *Tree) «Iter[int]» {
+	for _, v := range t.vals {
+		«Yield»(v)
+	}
+	return nil
+}
+
+func (t *Tree) Walk() «Iter[int]» { return Walk(t) }
+
+func (t *Tree) Items(k int) «Iter[int]» {
+	for _, v := range t.vals {
+		«Yield»(v + k)
+	}
+	return nil
+}
+
+func Items(t *Tree, k int) «Iter[int]» { return t.Items(k) }
+
+func (r Rcv) Items(k int) «Iter[int]» { return (&Tree{[]int{r.base, k}}).Items(1) }
+
 // delegation to a parameter whose declared type is an alias of the iterator type
 func GenViaAlias(it IntIt, k int) «Iter[int]» {
 	«YieldFrom»(it)
@@ -102,6 +126,8 @@ func GenOverPkgVar(k int) «Iter[int]» {
 		"func (r Rcv) Gen(n int) «Iter[int]» {\n", "func (r Rcv) Gen(n int) «Iter[int]» {\n\treturn refco.Go(func(ʏ *refco.Y[int]) {\n",
 		"func (r *Rcv) GenPtr(n int) (_ «Iter[int]») {\n", "func (r *Rcv) GenPtr(n int) «Iter[int]» {\n\treturn refco.Go(func(ʏ *refco.Y[int]) {\n",
 		"func GenOverPkgVar(k int) «Iter[int]» {\n", "func GenOverPkgVar(k int) «Iter[int]» {\n\treturn refco.Go(func(ʏ *refco.Y[int]) {\n",
+		"func Walk(t *Tree) «Iter[int]» {\n", "func Walk(t *Tree) «Iter[int]» {\n\treturn refco.Go(func(ʏ *refco.Y[int]) {\n",
+		"func (t *Tree) Items(k int) «Iter[int]» {\n", "func (t *Tree) Items(k int) «Iter[int]» {\n\treturn refco.Go(func(ʏ *refco.Y[int]) {\n",
 		"func GenViaAlias(it IntIt, k int) «Iter[int]» {\n", "func GenViaAlias(it IntIt, k int) «Iter[int]» {\n\treturn refco.Go(func(ʏ *refco.Y[int]) {\n",
 		"\treturn nil\n}\n", "\treturn\n\t})\n}\n",
 		"\treturn\n}\n", "\treturn\n\t})\n}\n",
@@ -244,14 +270,34 @@ func UseAlias(a, b int) int {
 	return vrt.V(%d, s)
 }
 `, tag(), tag())
-	src = []string{common, genSrc, users, alias}
-	ref = []string{common, genRef, users, alias}
+	sameName := fmt.Sprintf(`func UseSameName(a, b int) int {
+	t := &Tree{[]int{a, b, a + b}}
+	s := drainAll(t.Walk())
+	for v := range «RANGE(Walk(t))» {
+		s = s*5 + v
+		if v == b {
+			break
+		}
+	}
+	it := Items(t, 1)
+	if it.MoveNext() {
+		s = s*5 + it.Current()
+	}
+	for v := range «RANGE(it)» {
+		s = s*5 + v
+	}
+	return vrt.V(%d, s+drainAll((Rcv{a}).Items(b)))
+}
+`, tag())
+	src = []string{common, genSrc, users, alias, sameName}
+	ref = []string{common, genRef, users, alias, sameName}
 	small := []int{-1, 0, 1, 2, 3, 5}
 	funcs = []*Func{
 		{Name: "UseTypes", Params: []string{"a", "b"}, Args: [][]int{small, small}, Feat: []string{"iterator_in_struct_map_slice_closure_typearg", "generic_generator", "method_generator", "mixed_pull_and_range_on_one_iterator"}},
 		{Name: "UseRebind", Params: []string{"a", "b"}, Args: [][]int{small, small}, Feat: []string{"pull_helper_closures_over_rebound_iterator_variable"}},
 		{Name: "UseNested", Params: []string{"a", "b"}, Args: [][]int{small, small}, Feat: []string{"nested_consumer_ranges"}},
 		{Name: "UseAlias", Params: []string{"a", "b"}, Args: [][]int{small, small}, Feat: []string{"alias_of_the_iterator_type_as_variable_field_and_parameter_type"}},
+		{Name: "UseSameName", Params: []string{"a", "b"}, Args: [][]int{small, small}, Feat: []string{"generator_and_plain_forwarder_declared_under_one_name"}},
 		{Name: "UseAssignTargets", Params: []string{"a", "b"}, Args: [][]int{small, small}, Feat: []string{"consumer_range_assign_form_onto_index_field_and_pointer_operands"}},
 	}
 	// a plain file of the package (it does not mention the API): the writes to pkgSrc live here
@@ -276,6 +322,116 @@ func UseAlias(a, b int) int {
 	return
 }
 
+// delegTemplates: YieldFrom / range operands that are not plain identifiers or calls (field
+// paths, index and map-element expressions, a dereference, a field of a field): each denotes
+// ONE iterator value, read when the statement is reached; the consumer re-installs every
+// one of those storage locations between two pulls of a running delegation, which must not
+// notice. A second generator of the same storage shows that the new values are really there.
+func delegTemplates(r *prng.R, tag func() int) (src, ref []string, funcs []*Func) {
+	common := `type feed struct {
+	cur «Iter[int]»
+	all []«Iter[int]»
+	byk map[int]«Iter[int]»
+	nxt *feed
+}
+
+func slot(k int) int { return ((k % 2) + 2) % 2 }
+`
+	genSrc := fmt.Sprintf(`func dnums(from, n int) «Iter[int]» {
+	for i := 0; i < n; i++ {
+		vrt.E(%[1]d, from+i)
+		«Yield»(from + i)
+	}
+	return nil
+}
+
+func (f *feed) drain(k int) «Iter[int]» {
+	«YieldFrom»(f.cur)
+	«Yield»(-1)
+	«YieldFrom»(f.all[slot(k)])
+	«Yield»(-2)
+	«YieldFrom»(f.byk[slot(k)])
+	«Yield»(-3)
+	«YieldFrom»(f.nxt.cur)
+	«Yield»(-4)
+	for v := range «RANGE((*f).all[1-slot(k)])» {
+		«Yield»(v + 1000)
+	}
+	«YieldFrom»((*f).cur) // exhausted, or what the consumer has installed meanwhile
+	return nil
+}
+
+func (f feed) drainByValue(k int) «Iter[int]» {
+	for v := range «RANGE(f.cur)» {
+		vrt.E(%[2]d, v)
+		«Yield»(v * 2)
+	}
+	«YieldFrom»(f.nxt.all[slot(k)]) // f is a copy, f.nxt is shared
+	return nil
+}
+`, tag(), tag())
+	genRef := strings.NewReplacer(
+		"func dnums(from, n int) «Iter[int]» {\n", "func dnums(from, n int) «Iter[int]» {\n\treturn refco.Go(func(ʏ *refco.Y[int]) {\n",
+		"func (f *feed) drain(k int) «Iter[int]» {\n", "func (f *feed) drain(k int) «Iter[int]» {\n\treturn refco.Go(func(ʏ *refco.Y[int]) {\n",
+		"func (f feed) drainByValue(k int) «Iter[int]» {\n", "func (f feed) drainByValue(k int) «Iter[int]» {\n\treturn refco.Go(func(ʏ *refco.Y[int]) {\n",
+		"\treturn nil\n}\n", "\treturn\n\t})\n}\n",
+	).Replace(genSrc)
+	users := fmt.Sprintf(`func mkFeed(base int) *feed {
+	return &feed{
+		cur: dnums(base, 3),
+		all: []«Iter[int]»{dnums(base+10, 2), dnums(base+20, 2)},
+		byk: map[int]«Iter[int]»{0: dnums(base+30, 2), 1: dnums(base+40, 1)},
+		nxt: &feed{cur: dnums(base+50, 2), all: []«Iter[int]»{dnums(base+60, 1), dnums(base+70, 2)}},
+	}
+}
+
+// the consumer replaces every source after the (b+1)th element
+func UseFeed(a, b int) int {
+	f := mkFeed(10)
+	it := f.drain(a)
+	s, step := 0, 0
+	for it.MoveNext() {
+		s = s*3 + it.Current()
+		step++
+		if step == b+1 {
+			g := mkFeed(500)
+			f.cur, f.all[0], f.all[1], f.nxt = g.cur, g.all[0], g.all[1], g.nxt
+			f.byk[0], f.byk[1] = g.byk[0], g.byk[1]
+			vrt.E(%[1]d, step)
+		}
+	}
+	return vrt.V(%[2]d, s)
+}
+
+func UseFeedByValue(a, b int) int {
+	f := mkFeed(20)
+	it := f.drainByValue(a)
+	s, step := 0, 0
+	for v := range «RANGE(it)» {
+		s = s*3 + v
+		step++
+		if step == b {
+			f.cur = dnums(700, 2)       // the generator holds a copy of *f taken at the call
+			f.nxt.all = []«Iter[int]»{dnums(800, 1), dnums(900, 1)} // read when the delegation is reached
+			vrt.E(%[3]d, step)
+		}
+	}
+	for v := range «RANGE(f.cur)» {
+		s = s*3 + v
+	}
+	return vrt.V(%[4]d, s)
+}
+`, tag(), tag(), tag(), tag())
+	src = []string{common, genSrc, users}
+	ref = []string{common, genRef, users}
+	small := []int{-1, 0, 1, 2, 3, 5, 8}
+	funcs = []*Func{
+		{Name: "UseFeed", Params: []string{"a", "b"}, Args: [][]int{small, small}, Feat: []string{"yieldfrom_operand_field_index_mapelem_deref_reinstalled_by_consumer_mid_delegation"}},
+		{Name: "UseFeedByValue", Params: []string{"a", "b"}, Args: [][]int{small, small}, Feat: []string{"yieldfrom_operand_through_value_receiver_copy_and_shared_pointer"}},
+	}
+	return
+}
+
 // optTemplates: declarations aimed at the optimiser's side conditions (C07) and at file-wide
 // passes over bystander code (C13): closures of the eta-reducible shape whose callee is a
 // reassigned function variable, a method value on a reassigned receiver, a builtin, a
@@ -286,6 +442,11 @@ func optTemplates(r *prng.R, tag func() int) (imports, src, ref []string, funcs 
 	k1, k2, k3 := r.Range(1, 4), r.Range(5, 9), r.Range(0, 3)
 	imports = []string{`"strconv"`, `mb "math/bits"`, `_ "unicode/utf8"`, `. "sort"`}
 	common := fmt.Sprintf(`type cell struct{ n int }
+
+type frame struct {
+	n int
+	a [2]int
+}
 
 func (c *cell) Get() int { return c.n }
 
@@ -676,6 +837,56 @@ func genLevelAfter(first bool) «Iter[int]» {
 	return nil
 }
 
+// by-value struct / array PARAMETERS written through fields and elements only (never
+// assigned as a whole) and yielded as bare identifiers right after yielding statements: the
+// value is read when the yield is reached
+func optFrames(f frame, n int) «Iter[frame]» {
+	for i := 0; i < n; i++ {
+		f.n++
+		f.a[i%%2] += i + 1
+		«Yield»(f)
+	}
+	«Yield»(f)
+	if n > 1 {
+		f.n *= 2
+		«Yield»(f)
+	}
+	«Yield»(f)
+	f.a[1]++
+	switch {
+	case n > 0:
+		f.a[0] = -n
+		«Yield»(f)
+	}
+	«Yield»(f)
+	return nil
+}
+
+func optArrs(p [2]int, n int) «Iter[[2]int]» {
+	if n > 0 {
+		p[0] = n
+		«Yield»(p)
+	}
+	«Yield»(p)
+	for p[1] < n {
+		p[1] += 2
+		«Yield»(p)
+	}
+	«Yield»(p)
+	return nil
+}
+
+func UseFrames(a, b int) int {
+	s := 0
+	for f := range «RANGE(optFrames(frame{n: a}, b%%4))» {
+		s = s*3 + f.n + f.a[0]*5 + f.a[1]*7
+	}
+	for p := range «RANGE(optArrs([2]int{a, 0}, b))» {
+		s = s*3 + p[0] + p[1]*11
+	}
+	return vrt.V(%[7]d, s)
+}
+
 func OptDelay(a, b int) (_ «Iter[int]») {
 	x := a
 	if b > 0 {
@@ -697,8 +908,10 @@ func OptDelay(a, b int) (_ «Iter[int]») {
 	}
 	return
 }
-`, tag(), tag(), k2, tag(), tag(), tag())
+`, tag(), tag(), k2, tag(), tag(), tag(), tag())
 	genRef := strings.NewReplacer(
+		"func optFrames(f frame, n int) «Iter[frame]» {\n", "func optFrames(f frame, n int) «Iter[frame]» {\n\treturn refco.Go(func(ʏ *refco.Y[frame]) {\n",
+		"func optArrs(p [2]int, n int) «Iter[[2]int]» {\n", "func optArrs(p [2]int, n int) «Iter[[2]int]» {\n\treturn refco.Go(func(ʏ *refco.Y[[2]int]) {\n",
 		"func genLevels(n int) «Iter[int]» {\n", "func genLevels(n int) «Iter[int]» {\n\treturn refco.Go(func(ʏ *refco.Y[int]) {\n",
 		"func genLevels2(n int) «Iter[int]» {\n", "func genLevels2(n int) «Iter[int]» {\n\treturn refco.Go(func(ʏ *refco.Y[int]) {\n",
 		"func genLevelFirst() «Iter[int]» {\n", "func genLevelFirst() «Iter[int]» {\n\treturn refco.Go(func(ʏ *refco.Y[int]) {\n",
@@ -738,6 +951,7 @@ func OptDelay(a, b int) (_ «Iter[int]») {
 		mk("OptPromotedPtr", true, "loop_condition_promoted_method_through_embedded_pointer"),
 		mk("OptPromotedNil", true, "loop_condition_promoted_method_nil_receiver"),
 		mk("OptPromotedNilClosure", true, "eta_shape_promoted_method_nil_receiver"),
+		mk("UseFrames", false, "yield_of_by_value_struct_and_array_parameters_written_through_fields"),
 	}
 	plain = []string{"// the only writer of pkgLevel2 (declared in a rewritten file) lives in this plain file\nfunc setLevel2(n int) { pkgLevel2 = n }\n"}
 	return
